@@ -26,11 +26,46 @@ TU = 1 << 20       # trace time unit: 2^-20
 K = TU // U
 
 
+class PointedHeapq:
+    """stands in for the heapq module inside sc3.base._taskq: a preemption point after every heap operation, so that
+    a thread which does not need the lock the caller holds can run in the middle of a TaskQueue method (programs
+    with "qpoints")"""
+
+    def __init__(self, S):
+        import heapq
+        self._h = heapq
+        self._S = S
+        self.on = False
+
+    def _hit(self):
+        if self.on and self._S.cur is not self._S.main:
+            self._S.point()
+
+    def heappush(self, heap, item):
+        self._h.heappush(heap, item)
+        self._hit()
+
+    def heappop(self, heap):
+        v = self._h.heappop(heap)
+        self._hit()
+        return v
+
+    def __getattr__(self, name):
+        return getattr(self._h, name)
+
+
+PH = None
+
+
 def main_():
+    global PH
     inp = json.load(open(sys.argv[1]))
     S = cosched.install(cosched.FifoStrategy(), max_steps=inp.get('max_steps', 400_000))
     import sc3
     sc3.init('rt', 'CRITICAL')
+    import sc3.base._taskq as _tq
+    PH = PointedHeapq(S)
+    _tq.heapq = PH
     assert os.path.realpath(sc3.__file__).startswith(os.path.realpath(os.environ.get('SC3_REPO', '/repo'))), sc3.__file__
     from sc3.base.main import main
     from sc3.base import clock as clk
@@ -120,6 +155,7 @@ def run_program(S, prog, main, clk, stm, fn):
         return iv
 
     clocks = {'sys': clk.SystemClock, 'app': clk.AppClock}
+    PH.on = bool(prog.get('qpoints'))
     S.log_on = True
     S.strategy = make_strategy(prog.get('strategy', {}))
     tempo_threads = {}
@@ -309,6 +345,7 @@ def run_program(S, prog, main, clk, stm, fn):
         out['broken'] = True
         out['abort'] = str(e)[:300]
     S.log_on = False
+    PH.on = False
     # convert the log
     names = {'sys': clk.SystemClock._thread._m.name, 'app': clk.AppClock._thread._m.name}
     names.update(tempo_threads)
